@@ -11,6 +11,7 @@ import re
 from mc.core import pool
 from mc.gen import pyprog
 from mc.oracle import cpprun
+from mc.oracle.cpprun import Entry
 
 ID = 'C03'
 LEVEL = 'exploration'
@@ -291,13 +292,80 @@ def _shape(d: str) -> str:
     return re.sub(r'\b(?!int\b|str\b|bool\b|float\b|list\b|dict\b|tuple\b|None\b|Union\b)[A-Za-z_]\w*', 'C', d.split('|')[0])[:40]
 
 
+def numeric_chain_programs(quick: bool, per_module: int = 120):
+    """C03 only: chains of three numeric operands over + - * / % with int and float operands, bare and parenthesised.
+    (int / int is true division in Python: outside C01's agreed subset, but its *type* is determined: float.)"""
+    import itertools
+    operands = ['a', 'b', 'x', '2', '1.5']
+    ops = ['+', '-', '*', '/', '%']
+    env = {'a': 3, 'b': 2, 'x': 1.5}
+    fns = []
+    k = 0
+    for o1, o2, o3 in itertools.product(operands, repeat=3):
+        if quick and (o1, o2, o3).count('2') + (o1, o2, o3).count('1.5') > 1:
+            continue
+        for p1, p2 in itertools.product(ops, repeat=2):
+            for text in (f'{o1} {p1} {o2} {p2} {o3}', f'{o1} {p1} ({o2} {p2} {o3})'):
+                try:
+                    rt = type(eval(text, {}, env)).__name__
+                except Exception:  # noqa
+                    continue
+                name = f'n{k}'
+                k += 1
+                src = f'def {name}(a: int, b: int, x: float) -> {rt}:\n\tv = {text}\n\treturn v\n\n'
+                fns.append((name, src, Entry(name, [('a', 'int'), ('b', 'int'), ('x', 'float')], vectors=[(3, 2, 1.5), (1, 3, 0.5)], tag=f'num:{p1}{p2}')))
+    for i in range(0, len(fns), per_module):
+        yield pyprog.Program(f'num{i // per_module}', pyprog.HEADER, fns[i:i + per_module], layer='num')
+
+
+ITER_PRELUDE = pyprog.HEADER + '''
+class Countdown:
+	n: int
+
+	def __init__(self, n: int) -> None:
+		self.n = n
+
+	def __iter__(self) -> 'Countdown':
+		return self
+
+	def __next__(self) -> int:
+		if self.n <= 0:
+			raise StopIteration()
+		self.n -= 1
+		return self.n
+
+class Bag:
+	items: list[str]
+
+	def __init__(self) -> None:
+		self.items = ['p', 'q']
+
+	def __iter__(self) -> Iterator[str]:
+		return iter(self.items)
+
+'''
+
+
+def iterator_programs():
+    fns = []
+
+    def add(name, params, ret, body, vectors):
+        src = f'def {name}({", ".join(f"{n}: {t}" for n, t in params)}) -> {ret}:\n' + '\n'.join('\t' + l for l in body.split('\n')) + '\n\n'
+        fns.append((name, src, Entry(name, [(n, t) for n, t in params], vectors=vectors, tag=f'iter:{name}')))
+    add('it_for', [('a', 'int')], 'int', 't = 0\nfor tick in Countdown(a):\n\tt += tick\nreturn t', [(3,), (0,)])
+    add('it_comp', [('a', 'int')], 'list[int]', 'ticks = [tick for tick in Countdown(a)]\nreturn ticks', [(3,)])
+    add('it_bag', [('a', 'int')], 'str', "s = ''\nfor item in Bag():\n\ts = s + item\nreturn s", [(1,)])
+    add('it_bag_comp', [('a', 'int')], 'list[str]', 'return [item for item in Bag()]', [(1,)])
+    yield pyprog.Program('iter0', ITER_PRELUDE.replace('from collections.abc import Callable', 'from collections.abc import Callable, Iterator'), fns, layer='iter')
+
+
 def worker(pj):
     return judge(pyprog.Program.from_json(pj))
 
 
 def run(ctx):
     from mc.props.c01 import attribute_minimal
-    progs = list(pyprog.programs(ctx.quick))
+    progs = list(pyprog.programs(ctx.quick)) + list(numeric_chain_programs(ctx.quick)) + list(iterator_programs())
     ctx.log(f'{len(progs)} modules')
     from mc.props.c01 import warm_parent
     warm_parent()
@@ -317,7 +385,7 @@ def run(ctx):
         'evaluations': nodes,
         'distinct_nontrivial': reached,
         'programs': len(progs),
-        'rule': 'the PyProg scope of C01 (same bounds); every node whose source span coincides with a load-context CPython expression; non-trivial = reached by at least one execution and carrying a data value (callables, classes, iterators and views are not judged)',
+        'rule': 'the PyProg scope of C01 (same bounds) + every 3-operand numeric chain over + - * / % with int and float operands (bare and right-parenthesised) + user-defined iterator / iterable classes in for and comprehensions; every node whose source span coincides with a load-context CPython expression; non-trivial = reached by at least one execution and carrying a data value (callables, classes, iterators and views are not judged)',
         'samples': [p.functions[0][1] for p in (progs[0], progs[len(progs) // 2], progs[-1])],
         'nodes_never_reached': unreached,
         'functions_rejected_by_transpiler_see_C01': rejected,
